@@ -63,12 +63,34 @@ func lxattrs(p string) string {
 
 type snap map[string]obj
 
+// lightSnap is set in the child only: its snapshots serve attribution (which entry touched
+// which path), so instead of reading contents and attributes of every object after every
+// entry they record the inode change time, which any write, chmod, chown, utimes or setxattr
+// bumps. The parent's snapshots, which decide, always read everything.
+var lightSnap bool
+
 func lstatObj(p string) (obj, error) {
 	var st syscall.Stat_t
 	if err := syscall.Lstat(p, &st); err != nil {
 		return obj{}, err
 	}
-	o := obj{Mode: st.Mode, UID: st.Uid, GID: st.Gid, Size: st.Size, Mtime: st.Mtim.Sec*1e9 + st.Mtim.Nsec, Xattrs: lxattrs(p)}
+	o := obj{Mode: st.Mode, UID: st.Uid, GID: st.Gid, Size: st.Size, Mtime: st.Mtim.Sec*1e9 + st.Mtim.Nsec}
+	if lightSnap {
+		switch st.Mode & syscall.S_IFMT {
+		case syscall.S_IFLNK:
+			o.Target, _ = os.Readlink(p)
+			o.Size = 0
+		case syscall.S_IFCHR, syscall.S_IFBLK:
+			o.Rdev = uint64(st.Rdev)
+		case syscall.S_IFDIR:
+			o.Size = 0
+			o.Xattrs = lxattrs(p) // a directory's ctime moves with its entries (like its mtime), so no shortcut here
+			return o, nil
+		}
+		o.Sum = fmt.Sprintf("ctime:%d.%d", st.Ctim.Sec, st.Ctim.Nsec)
+		return o, nil
+	}
+	o.Xattrs = lxattrs(p)
 	switch st.Mode & syscall.S_IFMT {
 	case syscall.S_IFLNK:
 		o.Target, _ = os.Readlink(p)
